@@ -18,7 +18,9 @@ def modules(ctx):
     ml = V.Module(ctx, 'c13l', ['layout.cc'], 'c13.cc', ['c13_layout_reserve', 'c13_layout_union'], native_libs=('-ldl',))
     mo = V.Module(ctx, 'c13o', C01.CORE_TUS, 'c01.cc', ENTRIES, defs=('VP_T=%d' % T, 'VP_MAXC=%d' % MC), native_libs=('-ldl',),
                   native_tus=V.ALL_CORE[:-3] if False else C01.ALL_CORE, empties=('_ZN10value_type13register_type',))
-    return {'c13l': ml, 'c13o': mo}
+    mg = V.Module(ctx, 'c13g', C01.CORE_TUS, 'c13b.cc', ['c13_guard_ok', 'c13_guard_throw'], native_libs=('-ldl',), native_tus=C01.ALL_CORE,
+                  empties=('_ZN10value_type13register_type',))
+    return {'c13l': ml, 'c13o': mo, 'c13g': mg}
 
 def run(ctx):
     mods = modules(ctx)
@@ -34,6 +36,11 @@ def run(ctx):
         if ctx.only and e not in ctx.only:
             continue
         jobs.append(lambda e=e, b=b: V.run_entry(ctx, mods['c13l'], e, 8, timeout=600, bounds=b, tv_seeds=2))
+    for e in ('c13_guard_ok', 'c13_guard_throw'):
+        if ctx.only and e not in ctx.only:
+            continue
+        jobs.append(lambda e=e: V.run_entry(ctx, mods['c13g'], e, 8, timeout=600, bounds='one sub-expression evaluation, symbolic tokens', object_bits=12,
+                                            extra=('--memory-leak-check',), tv_seeds=1))
     chunk = 10
     ents = ENTRIES if ctx.tier != 'quick' else ['c13_alt2', 'c13_or2']
     for e in ents:
